@@ -1409,9 +1409,17 @@ def recreate_property(
     and keeps its documentation.
     """
     try:
-        return type(a_property)(
+        result = type(a_property)(
             fget=fget, fset=fset, fdel=fdel, doc=a_property.__doc__
         )
+
+        # An instance of a sub-class of ``property`` can carry a state of its own (*e.g.*, the name given to it
+        # by ``__set_name__`` when the class was created).
+        state = getattr(a_property, "__dict__", None)
+        if state:
+            result.__dict__.update(state)
+
+        return result
     except TypeError:
         # The sub-class of the property has a constructor of its own; we replace the accessors one by one.
         result = a_property
